@@ -103,6 +103,9 @@ def build(case):
     if name.endswith('_pure_IC'):
         use_rho = False
     rho = case.get('rho', 0.1)
+    rho_default = rho is None          # documented default of the graph wrappers: rho = 1/N
+    if rho_default:
+        rho = 1.0 / n
     ic = ic_counts.from_rho(G, rho) if use_rho else ic_counts.from_sets(G, I0, R0)
     c.ic, c.use_rho, c.rho, c.I0, c.R0 = ic, use_rho, rho, I0, R0
     N = ic['N']
@@ -227,6 +230,8 @@ def build(case):
             kw['rho'] = rho
         else:
             raise ValueError(name)
+    if rho_default and 'rho' in kw and 'individual_based' not in name:     # the individual-based models document rho / Y0 as required
+        del kw['rho']
     c.f = getattr(EoN, name)
     c.args, c.kw = args, kw
     c.N = N
@@ -261,7 +266,7 @@ def random_ode_case(r, name, nmax=None):
             'tmin': r.choice([0, 0, -2, 1.5]) if name not in DISCRETE else r.choice([0, 0, -2, 3]), 'tspan': r.choice([2.0, 5.0]) if name not in DISCRETE else r.choice([3, 6]),
             'tcount': r.choice([5, 11, 21]), 'full': r.random() < 0.5, 'seed': r.randrange(2 ** 40)}
     case['ic'] = r.choice(['rho', 'sets', 'sets'])
-    case['rho'] = r.choice([0.05, 0.1, 0.3, 1.0 / n])
+    case['rho'] = r.choice([0.05, 0.1, 0.3, 1.0 / n, 0.0, None])
     deg = [0] * n
     for u, v in desc['edges']:
         deg[u] += 1
